@@ -72,6 +72,8 @@ type c14Set struct {
 	spec  map[string]bool
 	ss    util.SortedSet
 	mw    *cors.Middleware
+	pna   bool // the middleware's configuration enables Private-Network Access (either mode)
+	cred  bool
 }
 
 func newC14Set(names []string) *c14Set {
@@ -108,6 +110,7 @@ func (s *c14Set) middleware() *cors.Middleware {
 		cfg := cors.Config{Origins: []string{"https://example.com"}, RequestHeaders: spelled}
 		hc := hashString("cfg|" + strings.Join(s.names, ","))
 		cfg.Credentialed = hc&1 == 1
+		s.cred = cfg.Credentialed
 		switch hc >> 1 % 3 {
 		case 1:
 			cfg.Methods = []string{"*"}
@@ -131,6 +134,14 @@ func (s *c14Set) middleware() *cors.Middleware {
 		}
 		if hc>>7&1 == 1 {
 			cfg.Origins = []string{"https://example.com", "https://*.example.org:*", "http://localhost:*"}
+		}
+		switch hc >> 8 % 4 { // Private-Network Access in either mode (the preflights then carry ACRPN half of the time)
+		case 1:
+			cfg.PrivateNetworkAccess = true
+			s.pna = true
+		case 2:
+			cfg.PrivateNetworkAccessInNoCORSModeOnly = true
+			s.pna = true
 		}
 		mw, err := cors.NewMiddleware(cfg)
 		if err != nil {
@@ -161,8 +172,22 @@ func c14RunCase(r *Run, l *Local, s *c14Set, lines []string, api bool) {
 	if api {
 		l.Eval()
 		l.counters["public_api_preflights"]++
-		o := serve(s.middleware(), preflightReq("https://example.com", "GET", append([]string(nil), lines...), false))
+		mw := s.middleware()
+		pnaSent := s.pna && hashString(strings.Join(lines, "\n"))&1 == 1
+		o := serve(mw, preflightReq("https://example.com", "GET", append([]string(nil), lines...), pnaSent))
 		gotAPI := o.ok2xx() && len(o.get(hACAO)) > 0
+		if gotAPI && want {
+			// approval has to be usable: the browser's preflight check (S3) passes for the names listed
+			var names []string
+			for _, line := range lines {
+				for _, el := range strings.Split(line, ",") {
+					if el = strings.Trim(el, " \t"); el != "" {
+						names = append(names, el)
+					}
+				}
+			}
+			gotAPI = preflightGrants(o, "https://example.com", "GET", names, s.cred, pnaSent)
+		}
 		if gotAPI != want {
 			key := "api-over-approval"
 			if want {
